@@ -81,47 +81,49 @@ def unionStep (fuel : Nat) (acc : List String × St) (t : Node) : List String ×
   | t => let (more, st) := resolveStrings fuel acc.2 t; (acc.1 ++ more, st)
 
 mutual
-theorem resolveStrings_eq_names : ∀ (t : ETy) (fuel : Nat) (st : St), t.depth ≤ fuel →
+theorem resolveStrings_eq_names : ∀ (t : ETy) (fuel : Nat) (st : St), st.typeGaveUp = false → t.depth ≤ fuel →
     resolveStrings fuel st t.toNode = (t.names, st)
-  | .lit s, fuel, st, hd => by
+  | .lit s, fuel, st, hg, hd => by
     cases fuel with
     | zero => simp [ETy.depth] at hd
-    | succ f => simp [ETy.toNode, resolveStrings, ETy.names]
-  | .union ts, fuel, st, hd => by
+    | succ f => simp [ETy.toNode, resolveStrings, ETy.names, enterRes_ok _ _ hg]
+  | .union ts, fuel, st, hg, hd => by
     cases fuel with
     | zero => simp [ETy.depth] at hd
     | succ f =>
-      have ih := resolveStringsL_eq_names ts f st [] (by simp [ETy.depth] at hd; omega)
+      have ih := resolveStringsL_eq_names ts f st [] hg (by simp [ETy.depth] at hd; omega)
       simp only [ETy.toNode, nList, ETy.names]
       rw [resolveStrings]
+      simp only [enterRes_ok _ _ hg]
       exact ih
-theorem resolveStringsL_eq_names : ∀ (ts : List ETy) (fuel : Nat) (st : St) (acc : List String), ETy.depthL ts ≤ fuel →
+theorem resolveStringsL_eq_names : ∀ (ts : List ETy) (fuel : Nat) (st : St) (acc : List String), st.typeGaveUp = false → ETy.depthL ts ≤ fuel →
     (ETy.toNodes ts).foldl (unionStep fuel) (acc, st) = (acc ++ ETy.namesL ts, st)
-  | [], _, _, _, _ => by simp [ETy.toNodes, ETy.namesL]
-  | t :: ts, fuel, st, acc, hd => by
+  | [], _, _, _, _, _ => by simp [ETy.toNodes, ETy.namesL]
+  | t :: ts, fuel, st, acc, hg, hd => by
     have hd' : t.depth ≤ fuel ∧ ETy.depthL ts ≤ fuel := by simp [ETy.depthL] at hd; omega
-    have h2 := resolveStringsL_eq_names ts fuel st (acc ++ t.names) hd'.2
+    have h2 := resolveStringsL_eq_names ts fuel st (acc ++ t.names) hg hd'.2
     simp only [ETy.toNodes, List.foldl, ETy.namesL]
     have hstep : unionStep fuel (acc, st) t.toNode = (acc ++ t.names, st) := by
       cases t with
       | lit s => simp [unionStep, ETy.toNode, ETy.names]
       | union us =>
-        have h1 := resolveStrings_eq_names (.union us) fuel st hd'.1
+        have h1 := resolveStrings_eq_names (.union us) fuel st hg hd'.1
         simp only [unionStep, ETy.toNode, nList] at h1 ⊢
         simp only [h1]
     rw [hstep, h2]; simp
 end
 
 /-- **Literal unions expand to exactly their literals, in order, at every nesting depth the limit admits.** -/
-theorem C19_literal_union_expansion (t : ETy) (st : St) (hd : t.depth ≤ FUEL) :
-    resolveStrings FUEL st t.toNode = (t.names, st) := resolveStrings_eq_names t FUEL st hd
+theorem C19_literal_union_expansion (t : ETy) (st : St) (hg : st.typeGaveUp = false) (hd : t.depth ≤ FUEL) :
+    resolveStrings FUEL st t.toNode = (t.names, st) := resolveStrings_eq_names t FUEL st hg hd
 
 /-- … and through an alias: `type A = <union>; (e: A) => void`. -/
 theorem C19_literal_union_through_alias (t : ETy) (st : St) (n b : String) (ir : List String) (iks rest : List Node)
-    (as : List String) (f : Nat) (hd : t.depth ≤ f) (hreg : lookupReg st.typeAliases (n, b) = some t.toNode) :
+    (as : List String) (f : Nat) (hd : t.depth ≤ f) (hreg : lookupReg st.typeAliases (n, b) = some t.toNode)
+    (hg : st.typeGaveUp = false) :
     resolveStrings (f + 1) st (.mk .tsTypeRef as (.mk .ident (n :: b :: ir) iks :: rest)) = (t.names, st) := by
-  simp only [resolveStrings, hreg]
-  exact resolveStrings_eq_names t f st hd
+  simp only [resolveStrings, hreg, enterRes_ok _ _ hg]
+  exact resolveStrings_eq_names t f st hg hd
 
 /-! ### (3) call signatures -/
 
@@ -129,16 +131,16 @@ theorem C19_literal_union_through_alias (t : ETy) (st : St) (n b : String) (ir :
 def callSigOf (t : ETy) : Node :=
   .mk .tsCallSig [] [nList [.mk .ident ["e", "u"] [.mk .tsTypeAnn [] [t.toNode]]], nNone, nNone]
 
-theorem emitStep_callSig (t : ETy) (acc : List String) (st : St) (hd : t.depth ≤ FUEL) :
+theorem emitStep_callSig (t : ETy) (acc : List String) (st : St) (hg : st.typeGaveUp = false) (hd : t.depth ≤ FUEL) :
     emitStep (acc, st) (callSigOf t) = (acc ++ t.names, st) := by
-  simp only [emitStep, callSigOf, nList, List.head?, typeAnnInner, resolveStrings_eq_names t FUEL st hd]
+  simp only [emitStep, callSigOf, nList, List.head?, typeAnnInner, resolveStrings_eq_names t FUEL st hg hd]
 
-theorem emitFold_callSigs : ∀ (ts : List ETy) (acc : List String) (st : St), (∀ t ∈ ts, t.depth ≤ FUEL) →
+theorem emitFold_callSigs : ∀ (ts : List ETy) (acc : List String) (st : St), st.typeGaveUp = false → (∀ t ∈ ts, t.depth ≤ FUEL) →
     (ts.map callSigOf).foldl emitStep (acc, st) = (acc ++ ETy.namesL ts, st)
-  | [], _, _, _ => by simp [ETy.namesL]
-  | t :: ts, acc, st, h => by
-    simp only [List.map, List.foldl, emitStep_callSig t acc st (h t (by simp)), ETy.namesL]
-    rw [emitFold_callSigs ts _ st (fun u hu => h u (by simp [hu]))]
+  | [], _, _, _, _ => by simp [ETy.namesL]
+  | t :: ts, acc, st, hg, h => by
+    simp only [List.map, List.foldl, emitStep_callSig t acc st hg (h t (by simp)), ETy.namesL]
+    rw [emitFold_callSigs ts _ st hg (fun u hu => h u (by simp [hu]))]
     simp
 
 theorem refineMembers_callSigs (ts : List ETy) : refineMembers (ts.map callSigOf) = ts.map callSigOf := by
@@ -157,28 +159,28 @@ def setupWithEmits (first : Node) (e : Node) : Node :=
 
 /-- **C19 for call signatures**: the `emits` array lists exactly the literals of every signature's first-parameter
     type, in order; nothing is reported (the state is unchanged). -/
-theorem C19_call_signatures (ts : List ETy) (first : Node) (st : St) (h : ∀ t ∈ ts, t.depth ≤ FUEL) :
+theorem C19_call_signatures (ts : List ETy) (first : Node) (st : St) (hg : st.typeGaveUp = false) (h : ∀ t ∈ ts, t.depth ≤ FUEL) :
     extractEmitsType (setupWithEmits first (.mk .tsTypeLit [] [nList (ts.map callSigOf)])) st
       = (some (nArray ((ETy.namesL ts).map fun n => nArg (nStr n))), st) := by
   have hres : resolveElements FUEL st (.mk .tsTypeLit [] [nList (ts.map callSigOf)]) = (ts.map callSigOf, st) := by
-    simp [FUEL, resolveElements, nList, refineMembers_callSigs]
+    simp [FUEL, resolveElements, nList, refineMembers_callSigs, enterRes_ok _ _ hg]
   simp only [extractEmitsType, setupWithEmits, setupParams, Option.bind, List.getElem?_cons_succ, List.getElem?_cons_zero,
     typeAnnInner, nIdent, nList, List.head?]
   simp only [nList] at hres
-  simp only [bne_self_eq_false, Bool.false_eq_true, if_false, hres, emitFold_callSigs ts [] st h, List.nil_append]
+  simp only [bne_self_eq_false, Bool.false_eq_true, if_false, hres, emitFold_callSigs ts [] st hg h, List.nil_append]
 
 /-- the same for a function type `(e: U) => void` (resolved to one call signature) -/
-theorem C19_function_type (t : ETy) (first : Node) (st : St) (h : t.depth ≤ FUEL) :
+theorem C19_function_type (t : ETy) (first : Node) (st : St) (hg : st.typeGaveUp = false) (h : t.depth ≤ FUEL) :
     extractEmitsType (setupWithEmits first
       (.mk .tsFnType [] [nList [.mk .ident ["e", "u"] [.mk .tsTypeAnn [] [t.toNode]]], nNone, nNone])) st
       = (some (nArray (t.names.map fun n => nArg (nStr n))), st) := by
   have hres : resolveElements FUEL st (.mk .tsFnType [] [nList [.mk .ident ["e", "u"] [.mk .tsTypeAnn [] [t.toNode]]], nNone, nNone])
       = ([callSigOf t], st) := by
-    simp [FUEL, resolveElements, callSigOf]
+    simp [FUEL, resolveElements, callSigOf, enterRes_ok _ _ hg]
   simp only [extractEmitsType, setupWithEmits, setupParams, Option.bind, List.getElem?_cons_succ, List.getElem?_cons_zero,
     typeAnnInner, nIdent, nList, List.head?]
   simp only [nList] at hres
-  simp only [bne_self_eq_false, Bool.false_eq_true, if_false, hres, List.foldl, emitStep_callSig t [] st h, List.nil_append]
+  simp only [bne_self_eq_false, Bool.false_eq_true, if_false, hres, List.foldl, emitStep_callSig t [] st hg h, List.nil_append]
 
 /-! ### (4) property syntax -/
 
@@ -201,7 +203,7 @@ theorem emitFold_propSigs : ∀ (ks : List ((String × Bool) × Node)) (acc : Li
     simp
 
 /-- **C19 for the property syntax**: exactly the property names (identifier or quoted, so also names with `:` and `-`). -/
-theorem C19_property_syntax (ks : List ((String × Bool) × Node)) (first : Node) (st : St) :
+theorem C19_property_syntax (ks : List ((String × Bool) × Node)) (first : Node) (st : St) (hg : st.typeGaveUp = false) :
     extractEmitsType (setupWithEmits first (.mk .tsTypeLit [] [nList (ks.map fun k => propSigOf k.1 k.2)])) st
       = (some (nArray ((ks.map (·.1.1)).map fun n => nArg (nStr n))), st) := by
   have href : refineMembers (ks.map fun k => propSigOf k.1 k.2) = ks.map fun k => propSigOf k.1 k.2 := by
@@ -213,7 +215,7 @@ theorem C19_property_syntax (ks : List ((String × Bool) × Node)) (first : Node
     simp [propSigOf]
   have hres : resolveElements FUEL st (.mk .tsTypeLit [] [nList (ks.map fun k => propSigOf k.1 k.2)])
       = (ks.map (fun k => propSigOf k.1 k.2), st) := by
-    simp [FUEL, resolveElements, nList, href]
+    simp [FUEL, resolveElements, nList, href, enterRes_ok _ _ hg]
   simp only [extractEmitsType, setupWithEmits, setupParams, Option.bind, List.getElem?_cons_succ, List.getElem?_cons_zero,
     typeAnnInner, nIdent, nList, List.head?]
   simp only [nList] at hres
